@@ -529,7 +529,6 @@ CaseResult gstlCase(Harness& H, long k, Rng& rng, bool storm) {
           destroyCont(c, cs[idx], st); // possibly on another thread than the one that filled it
           cs[idx] = cs.back();
           cs.pop_back();
-          c.xfrees.fetch_add(1, std::memory_order_relaxed);
         } else {
           step(c, cs[rng.below(cs.size())], rng, st, tid);
         }
